@@ -62,6 +62,11 @@ type sliceSpec struct {
 var slices = []sliceSpec{
 	{"x/storage/keeper/rewards.go", "pullTokensFromGauges", "amt64"},
 	{"x/storage/keeper/rewards.go", "rewardAllProviders", "tokensValueOwed"},
+	{"x/storage/keeper/msg_server_buy_storage.go", "BuyStorage", "storageProviderCut"},
+	{"x/storage/keeper/msg_server_buy_storage.go", "BuyStorage", "polCut"},
+	{"x/storage/keeper/msg_server_buy_storage.go", "BuyStorage", "refCut"},
+	{"x/storage/keeper/msg_server_post_file.go", "PostFile", "days"},
+	{"x/storage/keeper/msg_server_post_file.go", "PostFile", "storageProviderCut"},
 }
 
 type tr struct {
@@ -661,9 +666,13 @@ func main() {
 		// every single-variable assignment of the body, by name (a variable assigned twice is ambiguous)
 		defs := map[string]ast.Expr{}
 		count := map[string]int{}
+		first := map[string]ast.Expr{}
 		ast.Inspect(fn.Body, func(n ast.Node) bool {
 			if as, ok := n.(*ast.AssignStmt); ok && len(as.Lhs) == 1 && len(as.Rhs) == 1 {
 				if id, ok := as.Lhs[0].(*ast.Ident); ok && id.Name != "_" {
+					if count[id.Name] == 0 {
+						first[id.Name] = as.Rhs[0]
+					}
 					defs[id.Name] = as.Rhs[0]
 					count[id.Name]++
 				}
@@ -688,7 +697,11 @@ func main() {
 				return
 			}
 			if count[name] > 1 {
-				fail("%s: %s is assigned %d times", sp.fn, name, count[name])
+				if name == sp.target {
+					fail("%s: %s is assigned %d times", sp.fn, name, count[name])
+				}
+				t.vtype[name] = t.typ(first[name]) // typed by its first assignment
+				return                             // a variable assigned on several paths is an input of the slice
 			}
 			visiting[name] = true
 			ast.Inspect(rhs, func(n ast.Node) bool {
